@@ -1,7 +1,8 @@
 #!/bin/bash
 # usage: seed_eval.sh <tag> <property> <demo-dir> <check-id>...
 # Confirms a seeded change in a scratch worktree (builds, suite passes, demo fails with / passes without),
-# then applies it to /repo, runs the given checks (quick tier), reverts /repo, and files it under /verif/seeded/<tag>/.
+# then runs the given checks (quick tier) against that scratch checkout and files everything under /verif/seeded/<tag>/.
+# /repo itself is never modified.
 set -u
 export GOFLAGS=-mod=mod GOPROXY=off GOSUMDB=off GOTOOLCHAIN=local
 tag=$1; prop=$2; demo=$3; shift 3
@@ -22,21 +23,29 @@ cp $out/demo_test.go $sub/zz_demo_test.go
 with=$(go test -vet=off -count=1 -run '^TestDemo$' $sub 2>&1 | grep -c "^--- FAIL\|^FAIL\|panic:")
 git apply -R $out/patch.diff
 without=$(go test -vet=off -count=1 -run '^TestDemo$' $sub 2>&1 | grep -c "^ok")
-cd /; git -C /repo worktree remove --force $wt
+rm -f $sub/zz_demo_test.go
+git apply $out/patch.diff
 echo "[$tag] applies=$applies build=$build suite_ok_pkgs=$suite suite_failures=$suitefail demo_fails_with_change=$with demo_passes_without=$without"
-# run the checks against /repo with the change
-git -C /repo apply $out/patch.diff || { echo "cannot apply to /repo"; exit 3; }
+# run the checks against the scratch checkout with the change (never touches /repo)
+tmp=$(mktemp -d /var/tmp/gjv-alt-XXXX)
+cp -r /verif/harness $tmp/harness
+sed -i "s|=> /repo|=> $wt|" $tmp/harness/go.mod
+mkdir -p $tmp/verif/evidence
+cp /verif/checks.json /verif/known_findings.json $tmp/verif/
+cp -r /verif/kernels $tmp/verif/
 res=""
 for c in "$@"; do
   log=$out/check-$c.log
-  /verif/bin/gjv check $c --tier quick > $log 2>&1; rc=$?
+  VERIF_REPO=$wt VERIF_HARNESS=$tmp/harness VERIF_DIR=$tmp/verif /verif/bin/gjv check $c --tier quick > $log 2>&1; rc=$?
+  sed -i "s|$tmp/verif|/verif|g; s|$wt|/repo|g" $log
   nv=$(grep -c "^VIOLATION" $log)
   ni=$(grep -c "^INCONCLUSIVE" $log)
   first=$(grep -A1 "^VIOLATION" $log | sed -n 2p | cut -c1-200)
   echo "[$tag] check $c: exit=$rc violations=$nv inconclusive=$ni :: $first"
   res="$res{\"check\":\"$c\",\"exit\":$rc,\"violation_classes\":$nv,\"inconclusive\":$ni},"
 done
-git -C /repo checkout -- . ; git -C /repo status --short | head -3
+rm -rf $tmp
+cd /; git -C /repo worktree remove --force $wt
 cat > $out/meta.json <<EOM
 {"tag":"$tag","property":"$prop","applies":"$applies","build":"$build","suite_ok_packages":$suite,"suite_failures":$suitefail,
  "demo_fails_with_change":$with,"demo_passes_without_change":$without,
